@@ -23,7 +23,7 @@ from .tlv_type import VarBinaryStr, BinaryStr, NonStrictName, FormalName
 from .tlv_var import parse_and_check_tl, shrink_length
 from .tlv_model import TlvModel, InterestNameField, BoolField, UintField, \
     SignatureValueField, OffsetMarker, BytesField, ModelField, NameField, \
-    ProcedureArgument, RepeatedField
+    ProcedureArgument, RepeatedField, DecodeError
 
 
 __all__ = ['TypeNumber', 'ContentType', 'SignatureType', 'KeyLocator', 'SignatureInfo',
@@ -462,6 +462,8 @@ def parse_interest(wire: BinaryStr, with_tl: bool = True) -> Interest:
         wire = parse_and_check_tl(wire, TypeNumber.INTEREST)
     markers = {}
     ret = InterestPacketValue.parse(wire, markers)
+    if 'name' not in ret.__dict__:
+        raise DecodeError('Name is missing in the Interest')
     params = InterestParam()
     params.can_be_prefix = ret.can_be_prefix
     params.must_be_fresh = ret.must_be_fresh
@@ -499,6 +501,8 @@ def parse_data(wire: BinaryStr, with_tl: bool = True) -> Data:
         wire = parse_and_check_tl(wire, TypeNumber.DATA)
     markers = {}
     ret = DataPacketValue.parse(wire, markers)
+    if 'name' not in ret.__dict__:
+        raise DecodeError('Name is missing in the Data')
     params = ret.meta_info
     if params is None:
         params = MetaInfo()
